@@ -1,5 +1,7 @@
 mod resources_state;
 pub mod storage;
+#[cfg(zinoma_verif)]
+pub mod verif_crash;
 
 use super::builder::BuildTerminationReport;
 use crate::async_utils::both;
@@ -35,15 +37,26 @@ where
         return Ok(IncrementalRunResult::Skipped);
     }
 
+    #[cfg(zinoma_verif)]
+    verif_crash::crash_point("decided");
+
     storage::delete_saved_env_state(target).await?;
 
+    #[cfg(zinoma_verif)]
+    verif_crash::crash_point("after_delete");
+
     let build_report = future.await?;
+
+    #[cfg(zinoma_verif)]
+    verif_crash::crash_point("after_script");
 
     match build_report {
         BuildTerminationReport::Cancelled => Ok(IncrementalRunResult::Cancelled),
         BuildTerminationReport::Completed => {
             match TargetEnvState::current(target_input, target_output).await {
                 Ok(Some(env_state)) => {
+                    #[cfg(zinoma_verif)]
+                    verif_crash::crash_point("after_current");
                     if let Err(e) = storage::save_env_state(target, env_state).await {
                         log::warn!(
                             "{} - Failed to save state of inputs and outputs: {}",
